@@ -1065,6 +1065,54 @@ Qed.
 
 End Decode.
 
+(* ---------- the same with a relation instead of a decoding function (used to compose with the streaming decoder) ---------- *)
+Section DecodeRel.
+Variable Q : bytes -> bytes -> Prop.         (* Q frame content *)
+Hypothesis chunk_rel :
+  forall cs fc pl chunks, complete chunks -> Q (outs (cs_begin cs fc pl) chunks) (chunks_in chunks).
+
+Lemma done_frames_rel (L : list (CS * list (bytes * bool))) :
+  (forall f, In f L -> (snd f = [] \/ complete (snd f)) /\ begun f) ->
+  exists frames : list (bytes * bytes),
+    frames_in L = concat (map fst frames) /\ frames_out L = concat (map snd frames) /\
+    forall io, In io frames -> Q (snd io) (fst io).
+Proof.
+  induction L as [|f t IH]; intros H.
+  - exists []. repeat split; try reflexivity. intros io [].
+  - destruct IH as (fr & Hi & Ho & Hd); [intros g Hg; apply H; right; exact Hg|].
+    destruct (H f (or_introl eq_refl)) as [Hc Hb]. destruct f as [cs ch]. unfold begun in Hb. cbn [fst snd] in *.
+    destruct Hc as [->|Hc].
+    + exists fr. unfold frames_in, frames_out in *. cbn. split; [exact Hi|split; [exact Ho|exact Hd]].
+    + destruct Hb as [Hb|(cs' & fc & pl & ->)].
+      * subst ch. destruct Hc as (pre & c & E & _). destruct pre; discriminate.
+      * exists ((chunks_in ch, outs (cs_begin cs' fc pl) ch) :: fr).
+        unfold frames_in, frames_out in *. cbn. rewrite Hi, Ho. repeat split; try reflexivity.
+        intros io [<-|Hio]; [cbn; apply chunk_rel; exact Hc|apply Hd; exact Hio].
+Qed.
+
+Theorem stream_roundtrip_rel P X cs calls k' pos' emitted' :
+  calls_ok calls ->
+  krun P (k_new cs) X 0 calls [] = Some (k', pos', emitted') ->
+  k_stage k' = KInit -> k_frameEnded k' = true -> k_held k' = [] ->
+  exists frames : list (bytes * bytes),
+    tk pos' X = concat (map fst frames) /\ emitted' = concat (map snd frames) /\
+    forall io, In io frames -> Q (snd io) (fst io).
+Proof.
+  intros Hok Hrun Hst Hfe Hh.
+  destruct (krun_inv P X calls 0 [] (k_new cs) [] cs [] k' pos' emitted' (HInv_new P X cs) Hok Hrun) as (dones & cs0 & chunks & HI).
+  destruct HI as [HS Hin Hpos Hout Hdone Hbeg].
+  pose proof (si_ki _ _ _ _ HS) as K.
+  pose proof (ki_init _ _ _ _ K Hst) as [Hop Hip].
+  pose proof (ki_ended _ _ _ _ K Hfe) as [Hc _].
+  destruct (done_frames_rel (dones ++ [(cs0, chunks)])) as (fr & Hi & Ho & Hd).
+  - intros f Hf. apply in_app_or in Hf. destruct Hf as [Hf|[<-|[]]]; [apply Hdone; exact Hf|].
+    split; [right; exact Hc|]. destruct Hbeg as [[_ Hb]|Hb]; [left; exact Hb|right; exact Hb].
+  - exists fr. split; [|split; [|exact Hd]].
+    + rewrite <- Hi, frames_in_snoc. cbn [snd]. rewrite Hin, Hip, Hh, !app_nil_r. reflexivity.
+    + rewrite <- Ho, frames_out_snoc. cbn [fst snd]. rewrite Hout, Hop, app_nil_r. reflexivity.
+Qed.
+End DecodeRel.
+
 (* ---------- C10: ZSTD_e_end terminates (buffered input) ---------- *)
 Definition ending (k : kstate) : N :=
   match k_stage k with KFlush => if k_frameEnded k then 0 else 1 | _ => 1 end.
